@@ -646,6 +646,10 @@ class RTCDtlsTransport(AsyncIOEventEmitter):
         self.__rx_bytes += len(data)
         self.__rx_packets += 1
 
+        if not data:
+            # an empty datagram carries nothing to demultiplex
+            return
+
         first_byte = data[0]
         if first_byte > 19 and first_byte < 64:
             # DTLS
